@@ -73,6 +73,10 @@ def run(ctx):
                 ctx.count("rejected_by_encoding")
                 return
             raise
+        if c.get("copied"):
+            # the array went through pickle / deepcopy (what multiprocessing or a cache does): same data, another object graph
+            import copy, pickle
+            x = pickle.loads(pickle.dumps(x)) if c["copied"] == 1 else copy.deepcopy(x)
         res = get_reverse_complement(x)
         got = [t.upper() for t in text_rows(res)]
         nontriv = (ename, tuple(rows)) if sum(map(len, rows)) >= 2 else None
@@ -105,7 +109,21 @@ def run(ctx):
         ename = rng.choice(list(ENC))
         alpha = rng.choice(["ACGT", "ACGTN", "ACGTNacgtn", "acgt"])
         rows = ["".join(rng.choice(alpha) for _ in range(rng.choice([0, 1, 2, 5, 17]))) for _ in range(rng.randint(1, 5))]
-        ctx.run_case(case_rc, {"rows": rows, "enc": ename, "view": rng.randrange(1, 2 ** 30) if rng.random() < 0.3 else 0})
+        ctx.run_case(case_rc, {"rows": rows, "enc": ename, "view": rng.randrange(1, 2 ** 30) if rng.random() < 0.3 else 0, "copied": rng.choice([0, 0, 0, 0, 1, 2])})
+    # rows of about 100 000 bases whose lengths differ by one (whole chromosomes arms / long reads)
+    def case_long(c):
+        r = random.Random(c["seed"])
+        lens = [100000, 100001, 99999] if c["seed"] % 2 else [r.randint(99990, 100010) for _ in range(r.randint(2, 4))]
+        rows_l = ["".join(r.choices("ACGT", k=L)) for L in lens]
+        x = encode(rows_l, c["enc"])
+        res = get_reverse_complement(x)
+        got = text_rows(res)
+        tr = str.maketrans("ACGT", "TGCA")
+        exp = [s_[::-1].translate(tr) for s_ in rows_l]
+        bad = next((i for i, (g_, e_) in enumerate(zip(got, exp)) if g_.upper() != e_), None)
+        ctx.check("reverse_complement", bad is None and len(got) == len(exp), "reverse_complement/wrong-letters:rows-of-1e5-bases", "reverse complement of rows of lengths %r differs in row %r" % (lens, bad), {"lengths": lens, "seed": c["seed"], "enc": c["enc"], "row": bad}, ("long", c["seed"]))
+    for j in range(ctx.pick(1, 8)):
+        ctx.run_case(case_long, {"seed": ctx.seed * 911 + ctx.shard * 3 + j, "enc": rng.choice(["ascii", "ACGT"])})
     ctx.sample({"reverse_complement_case": {"rows": rows, "enc": ename}})
 
     # ---- stranded extraction ----------------------------------------------------------------
@@ -210,6 +228,11 @@ def run(ctx):
         got = [t.upper() for t in text_rows(res)]
         ctx.check("translate", got == exp, "translate/wrong-amino-acid:%s" % ("ascii" if ename == "ascii" else "alphabet"), "translation of %r (%s) gave %r, expected %r" % (rows, ename, got, exp),
                   dict(c, got=got, expected=exp), (ename, tuple(rows)))
+        after_in = [t.upper() for t in text_rows(x)] if len(x) else []
+        ctx.check("translate", after_in == [r_.upper() for r_ in rows], "translate/input-changed", "the DNA handed to translate_dna_to_protein reads %r afterwards, was %r" % (after_in[:3], rows[:3]), dict(c, after=after_in), None)
+        if after_in == [r_.upper() for r_ in rows]:
+            again = [t.upper() for t in text_rows(translate_dna_to_protein(x))]
+            ctx.check("translate", again == exp, "translate/second-translation-of-the-same-object-differs", "translating the same object again gave %r, expected %r" % (again[:3], exp[:3]), dict(c, got=again), None)
         # results that are still held while later translations run must keep their value (no shared output buffers)
         held.append((res, exp, dict(c)))
         if len(held) >= 6:
